@@ -263,4 +263,19 @@ CLAIMS = {
               "Trusted: barriers separate what precedes from what follows on their qubits (C01/C19)."),
         technique="static analysis: affine normal form with region-wise sign decision; builder summaries with must-be-closed (typestate) analysis of emit groups per feasible body path",
     ),
+    "C13": dict(
+        text=("Claimed in part; equality of the concrete index arrays depends on the run-time listing order and is NOT decided. Decided: the two "
+              "independent encodings of the experiment layout agree on COUNTS and ORDER for all rounds lists: from builder summaries, the round "
+              "block acquires every measured qubit once heralded, every measured ancilla once per round (both round builders), rounds summing to "
+              "the cycle count (0..8 exactly, k+9 symbolically; one direct ancilla measurement for 0 cycles), data qubits only in the final "
+              "measurement -- and this per-ancilla count, as a piecewise-affine form, equals the kernel length of RepetitionIndexKernel with "
+              "heralded initialisation in every region; the calibration block makes 3 states x (heralded + final) = the calibration kernel "
+              "length with h = 1 and a qutrit calibration includes all three states; categories come in the order heralded, parity, final and "
+              "calibration states in the order 0, 1, 2 (the order of the kernels' increasing offsets, C12.X2/X3 shared); blocks follow the "
+              "rounds list with calibration last on both sides (C11.F3 and C12.X1 shared)."),
+        note=("Not decided: the per-index equality of circuit acquisition indices and kernel getters (needs the listing order of the flattened "
+              "multi-round circuit). The documented 0-round difference (circuit measures the ancilla, kernel reports no projected index) is part "
+              "of the compared forms. Trusted: C07 (indices follow the listing)."),
+        technique="static analysis: builder summaries (emit counts under loops) compared with piecewise-affine kernel normal forms, region by region",
+    ),
 }
